@@ -359,3 +359,109 @@ Proof.
 Qed.
 
 End Names.
+
+(* ------------------------------------------------------------------ *)
+(* Top-level statements about decodeName(data, offset, &buffer, 1) *)
+From PV Require Import Proofs.RFC1035.
+
+Theorem name_total data off buf : wf data -> safe (decodeName name_fuel data off buf 1).
+Proof. intros Hwf. apply decodeName_safe; auto; unfold name_fuel; lia. Qed.
+
+Theorem name_sound data off buf name next buf' : wf data -> bytes_ok (arr data) ->
+  decodeName name_fuel data off buf 1 = Ok (name, next, buf') ->
+  exists labels, name_at (view data) off labels next /\ name = dotted labels.
+Proof.
+  intros Hwf Hok H. destruct (decodeName_sound_gen data Hwf Hok _ _ _ _ _ _ _ H) as (ls & Hn & _ & Hd).
+  eauto.
+Qed.
+
+Theorem name_complete data d off labels next buf : wf data -> bytes_ok (arr data) ->
+  name_at_d (view data) d off labels next -> (d <= 254)%nat -> (wire_len labels <= 256)%nat ->
+  exists buf', decodeName name_fuel data off buf 1 = Ok (dotted labels, next, buf').
+Proof.
+  intros Hwf Hok Hn Hd Hw.
+  destruct (decodeName_complete_gen data Hwf Hok name_fuel 1 d off labels next buf Hn) as (b' & H & _);
+    try (unfold name_fuel; lia). eauto.
+Qed.
+
+(* every RFC-valid name (at most 255 octets) compressed with at most 254 pointers is decoded *)
+Corollary name_complete_rfc data d off labels next buf : wf data -> bytes_ok (arr data) ->
+  name_at_d (view data) d off labels next -> (wire_len labels <= 255)%nat -> (d <= 254)%nat ->
+  exists buf', decodeName name_fuel data off buf 1 = Ok (dotted labels, next, buf').
+Proof. intros. eapply name_complete; eauto. Qed.
+
+(* whatever is not a name is rejected with an error: never a panic, never a name *)
+Theorem name_rejects data off buf : wf data -> bytes_ok (arr data) ->
+  (forall labels next, ~ name_at (view data) off labels next) ->
+  exists e, decodeName name_fuel data off buf 1 = Err e.
+Proof.
+  intros Hwf Hok Hno. destruct (name_total data off buf Hwf) as [Hp Hf].
+  destruct (decodeName name_fuel data off buf 1) as [[[n nx] b']|e| |] eqn:E; try contradiction; eauto.
+  exfalso. destruct (name_sound _ _ _ _ _ _ Hwf Hok E) as (ls & Hn & _). eapply Hno; eauto.
+Qed.
+
+
+(* ---- concrete witnesses (non-vacuity, sharpness) ---- *)
+
+(* k pointer cells 0 -> 2 -> 4 ... -> 2k, then "\003www\000" *)
+Fixpoint ptr_chain (k : nat) (i : nat) : bytes :=
+  match k with
+  | O => [3; 119; 119; 119; 0]
+  | S k' => (192 + N.of_nat (2 * (i + 1)) / 256) :: (N.of_nat (2 * (i + 1)) mod 256) :: ptr_chain k' (S i)
+  end.
+
+Example name_depth_254_accepted :
+  let data := of_bytes (ptr_chain 254 0) in
+  wf data /\ bytes_okb (arr data) = true /\
+  exists b', decodeName name_fuel data 0 (mkBuf [] [] true) 1 = Ok ([119; 119; 119], 2%nat, b').
+Proof. vm_compute. repeat split; auto. eexists. reflexivity. Qed.
+
+(* the recursion bound is sharp: the same name behind 255 pointers is a name, but is rejected *)
+Example name_depth_255_rejected :
+  let data := of_bytes (ptr_chain 255 0) in
+  ref_decode (view data) 0 = Some ([[119; 119; 119]], 2%nat) /\
+  decodeName name_fuel data 0 (mkBuf [] [] true) 1 = Err EParseFrame.
+Proof. vm_compute. split; reflexivity. Qed.
+
+(* four labels of 63, 63, 63 and 62 octets: 256 octets on the wire *)
+Definition long_name (last : nat) : bytes :=
+  (63 :: repeat 97 63) ++ (63 :: repeat 98 63) ++ (63 :: repeat 99 63) ++ (N.of_nat last :: repeat 100 last) ++ [0].
+
+(* the length limit applied by the code is 256, one more than RFC 1035's 255: accepted ... *)
+Example name_wire_256_accepted :
+  let data := of_bytes (long_name 62) in
+  match ref_decode (view data) 0 with Some (ls, _) => wire_len ls | None => 0%nat end = 256%nat /\
+  is_ok (decodeName name_fuel data 0 (mkBuf [] [] true) 1) = true.
+Proof. vm_compute. split; reflexivity. Qed.
+
+(* ... and 257 is rejected *)
+Example name_wire_257_rejected :
+  let data := of_bytes (long_name 63) in
+  match ref_decode (view data) 0 with Some (ls, _) => wire_len ls | None => 0%nat end = 257%nat /\
+  decodeName name_fuel data 0 (mkBuf [] [] true) 1 = Err EParseFrame.
+Proof. vm_compute. split; reflexivity. Qed.
+
+(* a compressed name: "\003www" + pointer to "\007example\003com\000" at offset 12 *)
+Example name_compressed_example :
+  let data := of_bytes (repeat 0 12 ++ [7;101;120;97;109;112;108;101;3;99;111;109;0] ++ [3;119;119;119;192;12]) in
+  exists b', decodeName name_fuel data 25 (mkBuf [] [] true) 1 =
+             Ok ([119;119;119;46;101;120;97;109;112;108;101;46;99;111;109], 31%nat, b').
+Proof. vm_compute. eexists. reflexivity. Qed.
+
+(* loops, reserved bits, truncation: errors *)
+Example name_self_loop_rejected :
+  decodeName name_fuel (of_bytes [192; 0]) 0 (mkBuf [] [] true) 1 = Err EParseFrame.
+Proof. vm_compute. reflexivity. Qed.
+Example name_two_loop_rejected :
+  decodeName name_fuel (of_bytes [1; 97; 192; 4; 1; 98; 192; 0]) 0 (mkBuf [] [] true) 1 = Err EParseFrame.
+Proof. vm_compute. reflexivity. Qed.
+Example name_reserved_rejected :
+  decodeName name_fuel (of_bytes [1; 97; 64; 0]) 0 (mkBuf [] [] true) 1 = Err EOther /\
+  decodeName name_fuel (of_bytes [1; 97; 128; 0]) 0 (mkBuf [] [] true) 1 = Err EOther.
+Proof. vm_compute. split; reflexivity. Qed.
+Example name_truncated_rejected :
+  decodeName name_fuel (of_bytes [5; 97; 98]) 0 (mkBuf [] [] true) 1 = Err EParseFrame /\
+  decodeName name_fuel (of_bytes [1; 97]) 0 (mkBuf [] [] true) 1 = Err EParseFrame /\
+  decodeName name_fuel (of_bytes [1; 97; 192]) 0 (mkBuf [] [] true) 1 = Err EParseFrame /\
+  decodeName name_fuel (of_bytes [1; 97; 192; 9]) 0 (mkBuf [] [] true) 1 = Err EParseFrame.
+Proof. vm_compute. repeat split; reflexivity. Qed.
